@@ -229,7 +229,13 @@ fn two_way_cuts(b: &[u8]) -> Vec<Vec<Vec<u8>>> {
 /// becomes a C01 violation naming the case that was running, otherwise it is a machinery error.
 fn fork_map_c01<F: Fn(usize, &Collector)>(c: &Collector, what: &str, n_parts: usize, timeout: Duration, f: F) {
     let crashes = fork_map(c, n_parts, timeout, &f);
+    let mut confirmed = 0;
     for cr in crashes {
+        if confirmed >= 1 {
+            c.note(format!("C01 {}: further abnormal worker end ({}) in partition {:?} (not re-run)", what, cr.how, cr.last_part));
+            continue;
+        }
+        confirmed += 1;
         let part = match cr.last_part {
             Some(p) => p,
             None => {
@@ -267,7 +273,7 @@ fn fork_map_c01<F: Fn(usize, &Collector)>(c: &Collector, what: &str, n_parts: us
 }
 
 pub fn c01(c: &Collector, g: &mut Guard) {
-    let timeout = Duration::from_secs(if c.thorough() { 3600 } else { 240 });
+    let timeout = Duration::from_secs(if c.thorough() { 3600 } else { 150 });
     let thorough = c.thorough();
     // ---------------------------------------------------------------- (i) E1 words on real screens
     let a = alphabet_a();
@@ -462,8 +468,8 @@ pub fn c01(c: &Collector, g: &mut Guard) {
     let gs: Vec<(u32, u32)> = if thorough { vec![(1, 1), (2, 1), (1, 2), (3, 2), (5, 3), (80, 24)] } else { vec![(1, 1), (3, 2), (5, 3)] };
     let spec = Spec {
         geoms: gs.clone(),
-        fills: vec![Fill::F0, Fill::F1, Fill::F3],
-        cursors: CursorSel::Corners,
+        fills: vec![Fill::F0, Fill::F1, Fill::F3, Fill::F7],
+        cursors: CursorSel::All,
         regions: RegionSel::Some,
         modesets: vec![0, M_IRM | M_DECOM, M_DECAWM_OFF | M_DECSCNM | M_LNM],
         renditions: vec![vec![]],
@@ -542,6 +548,17 @@ pub fn c01(c: &Collector, g: &mut Guard) {
         |c, t, local| {
             local.count("wide_param_transitions");
             c01_api_judge(c, t, "E5.api.wide", local);
+        },
+    );
+    // the complete alphabet (P(g) parameters, every text) from every small base state
+    let fb: Vec<Base> = bases.iter().filter(|b| b.columns <= 5).cloned().collect();
+    sweep(
+        c,
+        &fb,
+        |b| full_alphabet(b.columns, b.lines),
+        |c, t, local| {
+            local.count("full_alphabet_transitions");
+            c01_api_judge(c, t, "E5.api.full", local);
         },
     );
     // resize to any size >= 1x1 (up to 140x40) from the bases
@@ -690,12 +707,23 @@ fn c01_sessions(c: &Collector, timeout: Duration) {
                         for ch in d.chunks(m) {
                             p.feed(ch);
                             if m == 7 {
-                                let _ = arc.lock().unwrap().display();
+                                match arc.try_lock() {
+                                    Ok(mut g) => {
+                                        let _ = g.display();
+                                    }
+                                    Err(std::sync::TryLockError::WouldBlock) => panic!("listener mutex is still locked after feed() returned (any further access to the screen would block forever)"),
+                                    Err(std::sync::TryLockError::Poisoned(e)) => {
+                                        let _ = e.into_inner().display();
+                                    }
+                                }
                             }
                         }
                     }
                     // DECCOLM switch and back, then resizes
-                    p.feed(b"\x1b[?3h");
+                    p.feed(b"\x18\x1b[?3h");
+                    if arc.try_lock().is_err() {
+                        panic!("listener mutex is still locked after feed() returned");
+                    }
                     let _ = arc.lock().unwrap().display();
                     p.feed(&d[..d.len().min(2000)]);
                     p.feed(b"\x1b[?3l");
